@@ -197,6 +197,22 @@ def raising_guards(r, var):
             t = truth_set(x.test, var, r.fold)
             if t is not None:
                 out.append((_iv_not(t), x))
+    # the positive form: `if <test>: ...return...` followed by a raise (or with the raise in the else arm) - what the test lets through
+    # is accepted, the rest raises
+    for blk in [r.node.body] + [getattr(x, f) for x in ast.walk(r.node) for f in ("body", "orelse") if isinstance(getattr(x, f, None), list)]:
+        for i, x in enumerate(blk):
+            if not isinstance(x, ast.If) or any(isinstance(y, ast.Raise) for y in x.body):
+                continue
+            rs = [y for y in x.orelse if isinstance(y, ast.Raise)]
+            if not rs and x.body and isinstance(x.body[-1], ast.Return) and not x.orelse and i + 1 < len(blk) and isinstance(blk[i + 1], ast.Raise):
+                rs = [blk[i + 1]]
+            if rs:
+                t = truth_set(x.test, var, r.fold)
+                if t is not None:
+                    neg = ast.If(test=ast.UnaryOp(op=ast.Not(), operand=x.test), body=list(rs), orelse=[])
+                    ast.copy_location(neg, x)
+                    ast.copy_location(neg.test, x)
+                    out.append((t, neg))
     return out
 
 
